@@ -148,21 +148,49 @@ def project_coarse(meta):
     return {"nodes": nodes, "edges": edges}
 
 
-def run_resolve(text, last_all_atom=True, legacy=True, levels=None, driver="resolve_all"):
+def make_resolver(text, last_all_atom=True, legacy=True, ctor="from_string"):
+    """the three documented constructors, fed from the same complete string"""
+    import re
+    from cgsmiles import MoleculeResolver, read_cgsmiles
+    from cgsmiles.read_fragments import read_fragments
+    if ctor == "from_string":
+        return MoleculeResolver.from_string(text, last_all_atom=last_all_atom, legacy=legacy)
+    elements = re.findall(r"\{[^\}]+\}", text)
+    if ctor == "from_graph":
+        base = read_cgsmiles(elements[0])
+        return MoleculeResolver.from_graph(".".join(elements[1:]), base, last_all_atom=last_all_atom, legacy=legacy)
+    if ctor == "from_fragment_dicts":
+        dicts = []
+        for i, blk in enumerate(elements[1:]):
+            dicts.append(read_fragments(blk, all_atom=(last_all_atom and i == len(elements) - 2)))
+        return MoleculeResolver.from_fragment_dicts(elements[0], dicts, last_all_atom=last_all_atom, legacy=legacy)
+    raise ValueError(ctor)
+
+
+def run_resolve(text, last_all_atom=True, legacy=True, levels=None, driver="resolve", ctor="from_string"):
     """
-    MoleculeResolver.from_string(text) driven to its last level (or `levels` steps).
+    A MoleculeResolver built from `text` with constructor `ctor`, driven to its last level (or `levels` steps).
     Returns observation with one entry per yielded level, each projected at yield time.
     """
-    from cgsmiles import MoleculeResolver
     steps = []
     try:
         with quiet():
-            r = MoleculeResolver.from_string(text, last_all_atom=last_all_atom, legacy=legacy)
+            r = make_resolver(text, last_all_atom, legacy, ctor)
             n = r.resolutions if levels is None else levels
-            for i in range(n):
-                meta, mol = r.resolve()
-                aa = last_all_atom and (i == r.resolutions - 1)
-                steps.append({"coarse": project_coarse(meta), "fine": project_fine(mol, aa), "all_atom": aa})
+            if driver == "resolve":
+                for i in range(n):
+                    meta, mol = r.resolve()
+                    aa = last_all_atom and (i == r.resolutions - 1)
+                    steps.append({"coarse": project_coarse(meta), "fine": project_fine(mol, aa), "all_atom": aa})
+            elif driver == "resolve_iter":
+                for i, (meta, mol) in enumerate(r.resolve_iter()):
+                    aa = last_all_atom and (i == r.resolutions - 1)
+                    steps.append({"coarse": project_coarse(meta), "fine": project_fine(mol, aa), "all_atom": aa})
+            elif driver == "resolve_all":
+                meta, mol = r.resolve_all()
+                steps.append({"coarse": project_coarse(meta), "fine": project_fine(mol, last_all_atom), "all_atom": last_all_atom})
+            else:
+                raise ValueError(driver)
     except Exception as exc:
         return {"outcome": outcome_of(exc), "steps": steps, "msg": str(exc)[:200]}
     return {"outcome": "ok", "steps": steps}
